@@ -937,23 +937,22 @@ def errors(source, model, wcshelper):
 
     if model[prefix + 'sx'].vary and model[prefix + 'sy'].vary \
             and all(np.isfinite([err_sx, err_sy])):
-        # major axis error
-        ref = wcshelper.pix2sky(
-            [xo + sx * np.cos(np.radians(theta)),
-             yo + sy * np.sin(np.radians(theta))])
+        # major axis error: a step of err_sx along the major axis
+        ct, st = np.cos(np.radians(theta)), np.sin(np.radians(theta))
+        ref = wcshelper.pix2sky([xo + sx * ct, yo + sx * st])
         offset = wcshelper.pix2sky(
-            [xo + (sx + err_sx) * np.cos(np.radians(theta)),
-             yo + sy * np.sin(np.radians(theta))])
-        source.err_a = gcd(ref[0], ref[1], offset[0], offset[1]) * 3600
+            [xo + (sx + err_sx) * ct, yo + (sx + err_sx) * st])
+        # sx is a sigma but a is a FWHM
+        cc2fwhm = 2 * math.sqrt(2 * math.log(2))
+        source.err_a = gcd(ref[0], ref[1], offset[0], offset[1]) \
+            * 3600 * cc2fwhm
 
-        # minor axis error
-        ref = wcshelper.pix2sky(
-            [xo + sx * np.cos(np.radians(theta + 90)),
-             yo + sy * np.sin(np.radians(theta + 90))])
+        # minor axis error: a step of err_sy along the minor axis
+        ref = wcshelper.pix2sky([xo - sy * st, yo + sy * ct])
         offset = wcshelper.pix2sky(
-            [xo + sx * np.cos(np.radians(theta + 90)),
-             yo + (sy + err_sy) * np.sin(np.radians(theta + 90))])
-        source.err_b = gcd(ref[0], ref[1], offset[0], offset[1]) * 3600
+            [xo - (sy + err_sy) * st, yo + (sy + err_sy) * ct])
+        source.err_b = gcd(ref[0], ref[1], offset[0], offset[1]) \
+            * 3600 * cc2fwhm
     else:
         source.err_a = source.err_b = ERR_MASK
 
